@@ -294,6 +294,45 @@ pub fn header_docs(format: &str) -> Vec<Doc> {
             }
         }
     }
+    // two (or three) extreme counts whose SUM wraps around, with the largest possible M: a limit check
+    // that adds the counts up must not wrap
+    let wrap = ["9223372036854775807", "9223372036854775808", "9223372036854775809", "18446744073709551614", "18446744073709551615", "6148914691236517206", "12297829382473034411"];
+    for i in 1..5 {
+        for j in (i + 1)..5 {
+            for b1 in wrap {
+                for b2 in wrap {
+                    for third in ["0", "1", "2"] {
+                        let mut f: Vec<&str> = vec!["0"; 9];
+                        f[0] = "9223372036854775807";
+                        f[i] = b1;
+                        f[j] = b2;
+                        let k = (1..5).find(|k| *k != i && *k != j && *k != 3).unwrap_or(3);
+                        f[k] = third;
+                        push(&f);
+                    }
+                }
+            }
+        }
+    }
+    for t in ["6148914691236517206", "6148914691236517205", "12297829382473034411"] {
+        let mut f: Vec<&str> = vec!["0"; 9];
+        f[0] = "9223372036854775807";
+        f[1] = t;
+        f[2] = t;
+        f[4] = t;
+        push(&f);
+    }
+    // sparse numbering (ascii only: binary inputs are implicit): tiny circuits that use one huge
+    // variable index - nothing may be sized by the largest index (e.g. a table indexed by variable)
+    if format == "aag" {
+        for m in ["1000000", "20000000", "2147483647", "1099511627776", "4611686018427387903"] {
+            let big: u128 = m.parse().unwrap();
+            let lit = 2 * big;
+            out.push(Doc::new("sparse", format!("aag {m} 1 0 1 0\n{lit}\n{lit}\n").into_bytes()));
+            out.push(Doc::new("sparse", format!("aag {m} 1 0 1 1\n2\n{}\n{lit} 2 3\n", lit + 1).into_bytes()));
+            out.push(Doc::new("sparse", format!("aag {m} 1 1 1 1\n2\n{} {lit} 1\n{}\n{lit} 2 {}\n", lit - 2, lit - 1, lit - 2).into_bytes()));
+        }
+    }
     // justice property sizes: their sum is a count the input merely declares
     let sizes = ["0", "1", "2", "3", "9223372036854775808", "18446744073709551614", "18446744073709551615", "18446744073709551616"];
     let pre: &[u8] = if format == "aag" { b"2\n" } else { b"" };
